@@ -19,7 +19,9 @@ theorem newTypecast_shape (t : TyId) (inner c : Node) (h : ctx.newTypecast t inn
       · cases h; exact ⟨_, rfl⟩
       · split at h
         · cases h; exact ⟨_, rfl⟩
-        · split at h <;> (cases h; exact ⟨_, rfl⟩)
+        · split at h
+          · split at h <;> (cases h; exact ⟨_, rfl⟩)
+          · cases h; exact ⟨_, rfl⟩
   · cases h; exact ⟨_, rfl⟩
   · cases h
 
